@@ -9,7 +9,6 @@ import (
 	"strings"
 	"sync"
 	"time"
-
 )
 
 func init() {
@@ -365,9 +364,8 @@ func c08PeerStops(s *sc) {
 	var ch *child
 	if killed {
 		// am-a runs in its own process so that it can be killed without leaving the cluster
-		port, err := freePort()
-		s.must(err, "find a cluster port")
-		ch = startChild(s, sink, "am-a", port, nil, 10*time.Second, clusterConf().YAML(sink))
+		var port int
+		ch, port = startChild(s, sink, "am-a", nil, 10*time.Second, clusterConf().YAML(sink))
 		a = &member{name: "am-a", port: port, in: ch.in}
 	} else {
 		a = startMember(s, sink, "am-a", nil, 10*time.Second, clusterConf())
